@@ -797,11 +797,17 @@ func (c *Ctx) PortionRangeChecked(ob *core.Obligation) {
 			tlo, thi := false, false
 			for _, l := range term {
 				cmp, rel, ok := core.DecodeCond(l.Cond)
-				if !ok || cmp.B == nil || core.Canon(core.Strip(cmp.A)) != want {
+				if !ok || core.Canon(core.Strip(cmp.A)) != want {
 					continue
 				}
 				if !l.Val {
 					rel = core.ANY &^ rel
+				}
+				if cmp.B == nil { // x.Sign()
+					if rel&core.LT == 0 {
+						tlo = true
+					}
+					continue
 				}
 				k, isK := bigRatConst(cmp.B)
 				if isK && k == 0 && rel&core.LT == 0 {
